@@ -268,6 +268,56 @@ func C20(c *fw.Ctx) {
 		}
 	}
 	c.R.Traces = c.R.States
+	// whatever a line does, the session goes on: every built-in on every argument list of length 0 and 1
+	// over the operand alphabet (plus emptied and one-element containers), as a line of its own followed
+	// by a line of literals and built-ins, which must be answered as in a fresh session
+	{
+		ops := c02Operands()
+		extra := []operand{
+			{"emptied-array", func() *model.N { return model.CallN(model.BiRemove, model.Arr(model.Num(1)), model.Num(0)) }},
+			{"array-of-nil", func() *model.N { return model.Arr(model.Nil()) }},
+			{"array-of-text", func() *model.N { return model.Arr(model.Str("a")) }},
+			{"nested-empty", func() *model.N { return model.Arr(model.Arr()) }},
+		}
+		all := append(append([]operand{}, ops...), extra...)
+		probe := model.BiLen + "([1, 2]);"
+		for _, name := range model.Builtins {
+			if name == model.BiInput || name == model.BiInputLatin {
+				continue // reads the next line of the session itself
+			}
+			var lines []string
+			lines = append(lines, model.RenderExpr(model.CallN(name))+";")
+			for _, x := range all {
+				if x.Name == "AA" || x.Name == "OO" || x.Name == "uf" {
+					continue // names of a prelude that a prompt line does not have
+				}
+				lines = append(lines, model.RenderExpr(model.Parenthesize(model.ExprS(model.CallN(name, x.Mk())), true).A[0])+";")
+			}
+			for _, ln := range lines {
+				if !c.Mine() {
+					continue
+				}
+				session := ln + "\n" + probe + "\n"
+				o := h.RunRepl(session, h.Opts{Stdin: "", Fuel: 3_000_000})
+				c.Eval(session, true)
+				c.R.States++
+				c.R.Transitions++
+				base := fw.Replay{Mode: "repl", Program: session, CLI: true, InStdout: o.Stdout, InStderr: o.Stderr, InStatus: o.Status}
+				if abnormal(c, o, "repl", session, base) {
+					continue
+				}
+				parts, ok := splitPrompts(o.Stdout)
+				if !ok || len(parts) != 3 || parts[1] != "2\n" || parts[2] != "" || o.Status != 0 {
+					r := base
+					r.Sig = "C20|session-ends-or-later-line-altered|after-built-in-call"
+					r.What = "after a line that calls a built-in the next line is not answered as in a fresh session"
+					r.Expected = "three prompts, the second line answered 2, status 0"
+					r.Observed = fmt.Sprintf("stdout %q status %d stderr %q", trunc(o.Stdout, 200), o.Status, trunc(o.Stderr, 200))
+					c.Violate(r)
+				}
+			}
+		}
+	}
 	c.Sample(map[string]interface{}{"session": []string{pool[11], pool[1], pool[0]}, "expected_stdout": ">> >> 3\n>> 3\n>> "})
 }
 
